@@ -82,13 +82,16 @@ func (c *NoiseGrpcConn) Read(b []byte) (n int, err error) {
 	c.nextMsgMtx.Lock()
 	defer c.nextMsgMtx.Unlock()
 
-	// The last read was incomplete, return the few bytes that didn't fit.
+	// The last read was incomplete, return the bytes that didn't fit, as
+	// many of them as the caller's buffer (and the gRPC read buffer size)
+	// allows, and keep the rest for the next read.
 	if len(c.nextMsg) > 0 {
-		msgLen := len(c.nextMsg)
-		copy(b, c.nextMsg)
+		n := copy(b, c.nextMsg[:min(
+			len(c.nextMsg), defaultGrpcWriteBufSize,
+		)])
 
-		c.nextMsg = nil
-		return msgLen, nil
+		c.nextMsg = c.nextMsg[n:]
+		return n, nil
 	}
 
 	requestBytes, err := c.noise.ReadMessage(c.ProxyConn)
@@ -96,17 +99,18 @@ func (c *NoiseGrpcConn) Read(b []byte) (n int, err error) {
 		return 0, fmt.Errorf("error decrypting payload: %v", err)
 	}
 
-	// Do we need to read this message in two parts? We cannot give the
-	// gRPC layer above us more than the default read buffer size of 32k
-	// bytes at a time.
-	if len(requestBytes) > defaultGrpcWriteBufSize {
-		nextMsgLen := len(requestBytes) - defaultGrpcWriteBufSize
+	// Do we need to read this message in multiple parts? We cannot give
+	// the gRPC layer above us more than the default read buffer size of
+	// 32k bytes at a time, and never more than fits into its buffer.
+	maxLen := min(len(b), defaultGrpcWriteBufSize)
+	if len(requestBytes) > maxLen {
+		nextMsgLen := len(requestBytes) - maxLen
 		c.nextMsg = make([]byte, nextMsgLen)
 
-		copy(c.nextMsg[0:nextMsgLen], requestBytes[defaultGrpcWriteBufSize:])
+		copy(c.nextMsg[0:nextMsgLen], requestBytes[maxLen:])
 
-		copy(b, requestBytes[0:defaultGrpcWriteBufSize])
-		return defaultGrpcWriteBufSize, nil
+		copy(b, requestBytes[0:maxLen])
+		return maxLen, nil
 	}
 
 	copy(b, requestBytes)
